@@ -45,10 +45,15 @@ OriginalsRetained(x, y, dt, ndt) ==
   LET k == KObs(dt, ndt) IN
   Refining(dt, ndt) => /\ Len(y) >= (Len(x) - 1) * k + 1 - k     \* at most the last original may be lost to the even rule
                        /\ \A j \in 0..(Len(x) - 1) : j * k + 1 <= Len(y) => FEq(y[j * k + 1], x[j + 1])
+\* a subsequence has a STRICTLY increasing index map: output j is input sample j*k; at most the last output may be the
+\* (clamped) last input sample, and only if that index is beyond the previous one (the float count len/k can exceed the
+\* exact one by an ulp, e.g. 0.1*30 = 3.0000000000000004, which yields one clamped sample)
 Subsequence(x, y, dt, ndt) ==
-  LET k == KObs(dt, ndt)  tol == FMul(Slack, FAdd(FMaxAbs(x), FStr("1e-300"))) IN
-  (~Refining(dt, ndt)) => \A j \in 0..(Len(y) - 1) :
-       Close(y[j + 1], x[IF j * k + 1 <= Len(x) THEN j * k + 1 ELSE Len(x)], tol)
+  LET k == KObs(dt, ndt)  tol == FMul(Slack, FAdd(FMaxAbs(x), FStr("1e-300")))
+      idx(j) == IF j * k + 1 <= Len(x) THEN j * k + 1 ELSE Len(x)
+  IN (~Refining(dt, ndt)) =>
+       /\ \A j \in 0..(Len(y) - 1) : Close(y[j + 1], x[idx(j)], tol)
+       /\ \A j \in 1..(Len(y) - 1) : idx(j) > idx(j - 1)
 RangePreserved(x, y) == \A j \in 1..Len(y) : FLe(FMinSeq(x), y[j]) /\ FLe(y[j], FMaxSeq(x))
 DurationWithinTwoSteps(x, y, dt, ndt) ==
   LET d1 == FMul(FInt(Len(x) - 1), dt)  d2 == FMul(FInt(Len(y) - 1), ndt)
